@@ -387,6 +387,22 @@ pub fn run_scheduled_steps<F: Fn() + Send + Sync + 'static>(seed: u64, sched: Sc
     cfg.max_steps = shuttle::MaxSteps::FailAfter(max_steps);
     cfg.failure_persistence = shuttle::FailurePersistence::None;
     cfg.silence_warnings = true;
+    // the execution's clock thread: while the scenario runs, time passes (see verif_chan::tick) - a receive with a
+    // finite timeout never blocks for good, so a thread that waits for a worker to notice something by polling is
+    // served, and only a wait that nothing can end shows up as an execution that does not finish
+    let f = move || {
+        let done = Arc::new(shuttle::sync::atomic::AtomicBool::new(false));
+        let d2 = done.clone();
+        let clock = shuttle::thread::spawn(move || {
+            while !d2.load(std::sync::atomic::Ordering::SeqCst) {
+                verif_chan::tick();
+                shuttle::thread::yield_now();
+            }
+        });
+        f();
+        done.store(true, std::sync::atomic::Ordering::SeqCst);
+        let _ = clock.join();
+    };
     match sched {
         Sched::Random => {
             shuttle::Runner::new(RandomScheduler::new_from_seed(seed, iters.max(1)), cfg).run(f);
